@@ -54,6 +54,7 @@ package cache
 //@   ensures[C12.put-keeps-others] forall k string :: k != key && old(k in c.items) && !(!old(key in c.items) && old(len(c.items)) == c.capacity && k == old(lruKey(c))) ==> (k in c.items) && c.items[k] == old(c.items[k]) && entOf(c.items[k]).Value == old(entOf(c.items[k]).Value) && entOf(c.items[k]).CreatedAt == old(entOf(c.items[k]).CreatedAt)
 //@   ensures[C12.put-no-evict] old(key in c.items) || old(len(c.items)) < c.capacity ==> c.evictions == old(c.evictions)
 //@   ensures[C12.put-config] c.capacity == old(c.capacity) && c.ttl == old(c.ttl) && c.hits == old(c.hits) && c.misses == old(c.misses) && c.evictList == old(c.evictList) && c.items == old(c.items)
+//@   ensures[C12.put-new-is-fresh] !old(key in c.items) ==> ns(entOf(c.items[key]).CreatedAt) >= old(now()) && ns(entOf(c.items[key]).CreatedAt) <= now()
 //@   ensures[C12.put-update-keeps-age] old(key in c.items) ==> entOf(c.items[key]).CreatedAt == old(entOf(c.items[key]).CreatedAt)
 
 //@ func (*LRUCache).Get
